@@ -220,6 +220,7 @@ def inventory(prog, cg, roots, skip_derived=True):
         while cur in owner and owner[cur] not in chain and len(chain) < 4:
             cur = owner[cur]
             chain.append(cur)
+        chain.extend(c for c in getattr(prog, "_shared_helper_callers", {}).get(cur, ()) if c not in chain)
         s.owners = chain
     return sites, reach_, nb, nblocks
 
@@ -269,6 +270,7 @@ def single_caller_owner(prog, cg):
                     for tid in cg.targets_of(c["fn"]):
                         referenced.add(root_of[tid])
     out = {}
+    shared = {}
     for b in prog.bodies.values():
         if b.id != b.root or b.kind not in ("Fn", "AssocFn") or b.raw.get("derived") or b.raw.get("pub") or b.raw.get("exported"):
             continue
@@ -277,7 +279,12 @@ def single_caller_owner(prog, cg):
             continue
         if count.get(n) == 1 and len(callers.get(n, ())) == 1 and n not in referenced:
             out[n] = next(iter(callers[n]))
+        elif count.get(n, 0) >= 2 and n not in referenced:
+            # a private helper several functions were folded into (`exact_size_hint` shared by two `size_hint`s): the sites in it
+            # stand for the same construct in each of its callers
+            shared[n] = sorted(callers[n])
     prog._single_caller_owner = out
+    prog._shared_helper_callers = shared
     return out
 
 
